@@ -110,6 +110,29 @@ class BaseCommunityScn(Scenario):
         await step(4, "more rounds")
 
 
+class BroadcastBootstrapScn(BaseCommunityScn):
+    """
+    The plain Community with the (non-default) UDPBroadcastBootstrapper configured; every node's walkers ask for a bootstrap twice in
+    one tick, as RandomWalk + EdgeWalk scheduled back-to-back by IPv8.on_tick do.
+    """
+
+    name = "bcast"
+    expect_handlers = ()
+
+    async def script(self, c, nodes, step=_nop) -> None:  # noqa: ANN001
+        from ipv8.bootstrapping.udpbroadcast.bootstrapper import UDPBroadcastBootstrapper
+        for n in nodes:
+            n.ov.bootstrappers.append(n.call(UDPBroadcastBootstrapper))
+        for n in nodes:
+            n.call(n.ov.bootstrap)
+            n.call(n.ov.bootstrap)
+        c.probe("bootstrap_requested_twice_in_one_tick")
+        await step(0, "two bootstrap requests in one tick")
+        await asyncio.sleep(0.5)
+        await step(1, "broadcast socket open")
+        await super().script(c, nodes, lambda i, what: step(i + 2, what))
+
+
 class DiscoveryScn(Scenario):
     name = "discovery"
     expect_handlers = ("on_similarity_request", "on_similarity_response", "on_ping", "on_pong",
@@ -339,7 +362,7 @@ class IdentityScn(Scenario):
         await step(2, "attested with metadata")
 
 
-SCENARIOS = {s.name: s for s in (BaseCommunityScn(), DiscoveryScn(), DHTScn(), DHTDiscoveryScn(), TunnelScn(),
+SCENARIOS = {s.name: s for s in (BaseCommunityScn(), BroadcastBootstrapScn(), DiscoveryScn(), DHTScn(), DHTDiscoveryScn(), TunnelScn(),
                                  HiddenScn(), PexScn(), AttestationScn(), IdentityScn())}
 
 
